@@ -27,7 +27,7 @@ from vlib.elf import Elf
 
 PROP = "C04"
 META = {
-    "ready": False,
+    "ready": True,
     "level": "model_checking",
     "technique": "TLA+ placement machine model-checked with TLC against WellFormed; the same TLA+ WellFormed operator evaluated by TLC on observations of real wild outputs (observed-state validation)",
     "level_text": "The section/segment placement rules of wild (cursor, alignment, NOBITS, align_modulo at segment starts, RELRO cut, fixed addresses) are a TLA+ state machine whose every terminal image satisfies WellFormed for all part lists in the bound (TLC, exhaustive); the identical WellFormed operator is then evaluated by TLC on every output of a wide generated population of real links (six output kinds, page sizes, norelro, section-start, linker scripts, alignments up to 64K, TLS mixes, two architectures).",
